@@ -4,14 +4,13 @@ COMMON_ASSUMPTIONS = [
     "go/ssa (x/tools v0.48.0) faithfully represents the Go source of /repo's working tree; the SSA is rebuilt on every run",
     "the executor's instruction semantics (forked from x/tools go/ssa/interp, extended with bit-vector terms) match the Go spec for the constructs reached; counterexamples are replayed natively before being reported",
     "z3 4.8.12 answers are correct; 'unknown', timeouts and '(error' lines are reported as inconclusive, never as success",
-    "package-level state is initialised lazily per package and not reset between paths; goroutines are not modelled except by the cooperative model of engine/chan.go",
+    "package-level state is initialised lazily per package; writes made by a path outside initialisers are rolled back before the next path; goroutines are not modelled except by the cooperative model of engine/chan.go",
     "everything outside the stated bounds (longer inputs, wider values, more operations) is outside the claim",
 ]
 
 PROPS = {}
 
 NOT_APPLICABLE = {
-    "C08": "cue fmt: decided by the printer's whitespace/comment state machine over a pointer-rich AST plus text/tabwriter; inputs short enough to execute symbolically contain no layout decisions (DESIGN section 5)",
     "C11": "YAML round trip is decided by go.yaml.in/yaml/v3's emitter/scanner/resolver (table-driven state machines, strconv.ParseFloat, time.Parse); nothing that decides the property is encodable (DESIGN section 5)",
     "C12": "process-level composition of flag parsing, CUE-evaluated file-type inference and third-party YAML/TOML encoders; the literal/label kernels it relies on are claimed under C09/C10 (DESIGN section 5)",
     "C13": "instance validity is decided by the evaluator on generated CUE (closed structs, matchN, regexps); the translator only builds AST; no encodable unit carries an oracle (DESIGN section 5)",
@@ -223,11 +222,11 @@ PROPS["C03"]["outside"] = ["regexp bounds", "more than two conjuncts besides the
 
 PROPS["C01"] = {
     "level": "model_checking",
-    "claim": "Bounded symbolic model checking of order independence on the REAL evaluator (Vertex.Finalize: scheduler, conjunct insertion, insertArc, reference resolution, cycle handling). Scalar fragment: for every pair of conjuncts (atoms, basic types, bounds) and an arbitrary probe atom, unifying them in declaration order, reversed, interleaved with the probe, with a duplicated conjunct and with an extra top gives the same success/failure and the same value; triples of number types and bounds have the same error status in every explored order and fail only if unsatisfiable. Struct fragment: two struct literals (built as ADT) with fields a, b holding symbolic integer atoms, bounds on symbolic integers, int, or references to a sibling field (cycles included), evaluated as S1 & S2, as S2' & S1' with each literal's declarations reversed, and as one literal holding all declarations: the same fields exist, with the same error code, and admit the same integers for an arbitrary probe. Plus the order-free kernels (arc-type meet, default-mode combination, symmetry of bound simplification) are commutative, associative and idempotent.",
+    "claim": "Bounded symbolic model checking of order independence on the REAL evaluator (Vertex.Finalize: scheduler, conjunct insertion, insertArc, reference resolution, cycle handling). Scalar fragment: for every pair of conjuncts (atoms, basic types, bounds) and an arbitrary probe atom, unifying them in declaration order, reversed, interleaved with the probe, with a duplicated conjunct and with an extra top gives the same success/failure and the same value; triples of number types and bounds have the same error status in every explored order and fail only if unsatisfiable. Struct fragment: two struct literals (built as ADT) with fields a, b holding symbolic integer atoms, bounds on symbolic integers, int, or references to a sibling field (cycles included), evaluated as S1 & S2, as S2' & S1' with each literal's declarations reversed, and as one literal holding all declarations: the same fields exist, with the same error code, the same kind, and admit the same integers for an arbitrary probe. Plus the order-free kernels (arc-type meet, default-mode combination, symmetry of bound simplification) are commutative, associative and idempotent.",
     "note": "Trusted: go/ssa, the executor, z3, the decimal contract model. Outside: nested structs, optional/required fields, definitions and closedness, embeddings, comprehensions, lists, disjunction order, file order, structure sharing beyond what two flat literals trigger, the compiler (literals are built as ADT).",
     "technique": "bounded symbolic execution of adt.Vertex.Finalize (the real scheduler, conjunct insertion, insertArc, reference resolution) on permuted/duplicated symbolic scalar conjuncts and on permuted struct literals with symbolic integer leaves; outcomes compared by z3",
     "bounds": {
-        "quick": "conjunct pairs over strings/bytes (<= 1 byte) with types and bounds, probe <= 2 bytes: orders (c1,c2,p), (p,c2,c1), (c1,p,c2,c1,top); triples int & c2 & c3 with c2,c3 a number type or a bound (< <= > >= !=) on a one-digit int or one-digit half-unit float (d*10^-1), in 3 orders (identity, reversed, rotated); two struct literals over fields a, b with <= 2 and 1 declarations, values: integer in 0..3, bound (< or >=) on such an integer, int, sibling reference; probe in 0..3; arc types: all values; default modes: all values",
+        "quick": "conjunct pairs over strings/bytes (<= 1 byte) with types and bounds, probe <= 2 bytes: orders (c1,c2,p), (p,c2,c1), (c1,p,c2,c1,top); triples int & c2 & c3 with c2,c3 a number type or a bound (< <= > >= !=) on a one-digit int or one-digit half-unit float (d*10^-1), in 3 orders (identity, reversed, rotated); two struct literals over fields a, b with <= 2 and 1 declarations, values: integer in 0..3, bound (< or >=) on such an integer, int, sibling reference; probe in 0..3; two routes into a field: {a: t, t: V | t: u, u: V} & {a: t2, ...} over labels a, b, c; a chain: {c: V1, a: c, b: a, b: V3} & {l: V2}; structure sharing on (production default); arc types: all values; default modes: all values",
         "thorough": "conjunct pairs over the full scalar domain (null, bool, numbers, strings, bytes; all basic types; all bounds); triples with all three conjuncts arbitrary (type or bound) in 3 orders; struct literals with <= 2 declarations each",
     },
     "outside": ["nested structs, lists, comprehensions, disjunction order, closedness, optional/required fields, embeddings, files"],
@@ -256,8 +255,12 @@ PROPS["C01"] = {
             "harness": ["adt/common.go", "adt/disjunct.go", "adt/structs.go"],
             "apdmodel": True,
             "entries": {
-                "quick": [{"name": "verifHarnessStructOrder", "params": {"DECLS": 2, "DECLS1": 1, "OPS": 2}}],
-                "thorough": [{"name": "verifHarnessStructOrder", "params": {"DECLS": 2, "OPS": 2}}],
+                "quick": [{"name": "verifHarnessStructOrder", "params": {"DECLS": 2, "DECLS1": 1, "OPS": 2}},
+                          {"name": "verifHarnessStructOrder", "params": {"MODE": 1}},
+                          {"name": "verifHarnessStructOrder", "params": {"MODE": 2}}],
+                "thorough": [{"name": "verifHarnessStructOrder", "params": {"DECLS": 2, "OPS": 2}},
+                             {"name": "verifHarnessStructOrder", "params": {"MODE": 1}},
+                             {"name": "verifHarnessStructOrder", "params": {"MODE": 2}}],
             },
         },
     ],
@@ -564,6 +567,31 @@ PROPS["C16"] = {
             "entries": {
                 "quick": [{"name": "verifHarnessFetchCrashSafety", "params": {"EFFECTS": 20}}],
                 "thorough": [{"name": "verifHarnessFetchCrashSafety", "params": {"EFFECTS": 24}}],
+            },
+        },
+    ],
+}
+
+
+PROPS["C08"] = {
+    "level": "model_checking",
+    "claim": "Bounded symbolic model checking of the real formatter (format.Source: parser, printer state machine, text/tabwriter) on every source of at most 3 bytes: whenever the source parses, formatting succeeds, the output parses, the output's syntax tree equals the input's (same nodes in the same shape; identifiers, string literals, operators, field constraints, attributes equal; number literals equal by kind and value; the same comment groups with the same text, doc/line flags and position index on the same nodes), and formatting the output again returns it byte for byte. This is a thin claim: sources this short contain few layout decisions.",
+    "note": "Trusted: go/ssa, the executor, z3, the decimal contract model (only to compare number literals by value). Outside: sources longer than 3 bytes - so multi-field structs, blank-line and comment placement, alignment sections, the -s simplifications, import sorting, cmd/cue fmt itself.",
+    "technique": "bounded symbolic execution of format.Source and parser.ParseFile from go/ssa on symbolic source bytes; syntax trees compared node by node, output compared byte by byte, decided by z3 and the byte-domain pre-solver",
+    "bounds": {
+        "quick": "every byte string of length <= 3 (51 976 paths, 3 208 of them parse)",
+        "thorough": "the same",
+    },
+    "outside": ["sources > 3 bytes", "format.Simplify and other options", "import handling", "cue fmt command (file handling, --check, --diff)"],
+    "assumptions": APD_ASSUMPTIONS,
+    "runs": [
+        {
+            "pkg": "./cue/format",
+            "harness": ["format/idem.go"],
+            "apdmodel": True,
+            "entries": {
+                "quick": [{"name": "verifHarnessFormatIdempotent", "params": {"N": 3}}],
+                "thorough": [{"name": "verifHarnessFormatIdempotent", "params": {"N": 3}}],
             },
         },
     ],
